@@ -194,7 +194,12 @@ def main():
         ],
         "checks": checks,
         "not_applicable": na,
-        "notes": "Exit 2 (no VIOLATION line) means 'cannot decide' (build failure under nightly, anchor lost). Known findings are listed in known_findings.json and printed as KNOWN-FINDING lines.",
+        "notes": "Exit 2 (no VIOLATION line) means 'cannot decide' (build failure under nightly, anchor lost). Known findings are listed in known_findings.json and printed as KNOWN-FINDING lines. "
+                 "Every property is claimed at most IN PART (structural clauses; see each level_claimed.text). Clauses that are NOT APPLICABLE to static analysis and are not claimed by any check: "
+                 "C11 equality of the evaluated set with the RPSL denotation over an IRR database (run-time values in rpsl/irrc/generic-ip); "
+                 "C05 wake-up order, fairness and progress under all interleavings; C07 'within bounded time'; C17 response-to-query attribution and pipeline draining (irrc); "
+                 "C01/C02 set contents, Junos merge semantics and behaviour over run sequences; C06 concrete chunkings below the TLS/SSH record layer; C19 the timeline itself (signal arrival vs timer); "
+                 "C14/C15 panics and loops inside dependencies other than the explicit markers listed; C20 what russh/rustls/tokio log internally.",
     }
     with open(os.path.join(VERIF, "MANIFEST.json"), "w") as f:
         json.dump(m, f, indent=1)
